@@ -163,15 +163,74 @@ func runC08(c *core.Ctx) {
 				continue
 			}
 			// every returned value is a result of a delegated call (directly, or through a cell only such results are stored into)
-			fromDeleg := func(v ssa.Value) bool {
+			var fromDeleg func(v ssa.Value) bool
+			// wrapperResult: v is (a component of) the result of a lock wrapper that returns what the closure it was
+			// given returns, and that closure returns the delegated call's results
+			wrapperResult := func(call *ssa.Call, idx int) bool {
+				h := core.Callee(&call.Call)
+				if h == nil || !p.InRepo(h) || len(h.Blocks) == 0 {
+					return false
+				}
+				var cl *ssa.Function
+				var prm *ssa.Parameter
+				for i, a := range call.Call.Args {
+					if mc, ok := core.Resolve(a).(*ssa.MakeClosure); ok && i < len(h.Params) {
+						cl, prm = mc.Fn.(*ssa.Function), h.Params[i]
+					}
+				}
+				if cl == nil {
+					return false
+				}
+				// the wrapper returns the results of calling its parameter
+				for _, rc := range core.ReturnCases(h) {
+					if idx >= len(rc.Vals) {
+						return false
+					}
+					rv := core.Resolve(rc.Vals[idx])
+					var inner *ssa.Call
+					switch x := rv.(type) {
+					case *ssa.Call:
+						inner = x
+					case *ssa.Extract:
+						if c2, ok := x.Tuple.(*ssa.Call); ok && x.Index == idx {
+							inner = c2
+						}
+					}
+					if inner == nil || inner.Call.Value != ssa.Value(prm) {
+						return false
+					}
+				}
+				// the closure returns the delegated call's results, position by position
+				for _, rc := range core.ReturnCases(cl) {
+					if idx >= len(rc.Vals) {
+						return false
+					}
+					rv := core.Resolve(rc.Vals[idx])
+					switch x := rv.(type) {
+					case *ssa.Extract:
+						c2, ok := x.Tuple.(*ssa.Call)
+						if !ok || !isDeleg(c2) || x.Index != idx {
+							return false
+						}
+					case *ssa.Call:
+						if !isDeleg(x) {
+							return false
+						}
+					default:
+						return false
+					}
+				}
+				return true
+			}
+			fromDeleg = func(v ssa.Value) bool {
 				v = core.Resolve(v)
 				switch x := v.(type) {
 				case *ssa.Extract:
 					if call, ok := x.Tuple.(*ssa.Call); ok {
-						return isDeleg(call)
+						return isDeleg(call) || wrapperResult(call, x.Index)
 					}
 				case *ssa.Call:
-					return isDeleg(x)
+					return isDeleg(x) || wrapperResult(x, 0)
 				}
 				return false
 			}
